@@ -1,4 +1,59 @@
-(* Prop_C03 — statements only; see proofs/Linop*.v *)
+(* Prop_C03 — operator algebra agrees with matrix algebra; advertised shapes; rejection. *)
 From Coq Require Import ZArith List Bool.
-From SV Require Import lib.Scalar lib.BigSum model.Linop.
+From SV Require Import lib.Scalar lib.BigSum model.Block model.Linop proofs.LinopTheory proofs.LinopAlgebra.
 Import ListNotations.
+Local Open Scope Z_scope.
+
+(* A*B applies B then A (after python's flattening of nested compositions) *)
+Theorem C03_product_applies_right_then_left :
+  forall (R : StarRing) arr scal orc A B (x : list Z -> R), D R arr scal orc (op_mul A B) x = D R arr scal orc A (D R arr scal orc B x).
+Proof. exact D_mul. Qed.
+Print Assumptions C03_product_applies_right_then_left.
+
+Theorem C03_composition_of_a_list :
+  forall (R : StarRing) arr scal orc ls (x : list Z -> R),
+    D R arr scal orc (mkCompose ls) x = fold_right (fun a acc => D R arr scal orc a acc) x ls.
+Proof. exact D_compose_list. Qed.
+Print Assumptions C03_composition_of_a_list.
+
+Theorem C03_flattening_preserves_meaning :
+  forall (R : StarRing) arr scal orc l1 l2 l3 (x : list Z -> R),
+    D R arr scal orc (mkCompose (l1 ++ [Compose l2] ++ l3)) x = D R arr scal orc (mkCompose (l1 ++ l2 ++ l3)) x.
+Proof. exact D_compose_assoc. Qed.
+Print Assumptions C03_flattening_preserves_meaning.
+
+Theorem C03_sum_adds_results :
+  forall (R : StarRing) arr scal orc A B (x : list Z -> R) o,
+    D R arr scal orc (op_add A B) x o = add (D R arr scal orc A x o) (D R arr scal orc B x o).
+Proof. exact D_plus. Qed.
+Print Assumptions C03_sum_adds_results.
+
+Theorem C03_difference :
+  forall (R : StarRing) arr scal orc A B (x : list Z -> R) o,
+    D R arr scal orc (op_sub A B) x o = add (D R arr scal orc A x o) (D R arr scal orc (op_neg B) x o).
+Proof. exact D_minus. Qed.
+Print Assumptions C03_difference.
+
+(* operands whose shapes do not fit are rejected by the constructor model *)
+Theorem C03_compose_rejects_misfit :
+  forall A B, wf A = true -> wf B = true -> ishape_of A <> oshape_of B -> wf (Compose [A; B]) = false.
+Proof. exact compose_reject. Qed.
+Print Assumptions C03_compose_rejects_misfit.
+
+Theorem C03_compose_accepts_only_fitting :
+  forall A B s, shapes (Compose [A; B]) = Ok s ->
+    ishape_of A = oshape_of B /\ fst s = oshape_of A /\ snd s = ishape_of B.
+Proof. exact compose_accept. Qed.
+Print Assumptions C03_compose_accepts_only_fitting.
+
+Theorem C03_add_rejects_misfit :
+  forall A B, wf A = true -> wf B = true ->
+    (ishape_of A <> ishape_of B \/ oshape_of A <> oshape_of B) -> wf (Add [A; B]) = false.
+Proof. exact add_reject. Qed.
+Print Assumptions C03_add_rejects_misfit.
+
+Example C03_example_reject :
+  wf (Compose [Resize [3] [4] None None; Resize [5] [3] None None]) = false /\
+  wf (Hstack [Identity [2; 3]; Identity [2; 4]] (Some (-1))) = false /\
+  wf (Hstack [Resize [2; 3] [2; 3] None None; Resize [2; 3] [2; 4] None None] (Some (-1))) = true.
+Proof. vm_compute. auto. Qed.
